@@ -18,7 +18,9 @@ Translatable(t) == t \in {TMENU, TTEMPLATE, TSTATIC}
 SafeLock == {TBIN, TMENU, TTEMPLATE, TSTATIC}              \* read-only for the VM: locked by default
 
 \* h = [pfx, sid, lang, lock (set of types), seal]
-Handle0 == [pfx |-> 0, sid |-> "", lang |-> "", lock |-> SafeLock, seal |-> FALSE]
+\* clang: language carried by the caller's context ("Language" value), used when the handle has no language of its own
+Handle0 == [pfx |-> 0, sid |-> "", lang |-> "", clang |-> "", lock |-> SafeLock, seal |-> FALSE]
+EffLang(h) == IF h.lang # "" THEN h.lang ELSE h.clang
 LK(t, sid, key, lang) == <<t, IF Sessioned(t) THEN sid ELSE "", key, IF Translatable(t) THEN lang ELSE "">>
 Cur(h, key, lang) == LK(h.pfx, h.sid, key, lang)
 
@@ -33,14 +35,15 @@ Apply(g, o) ==
   CASE o.op = "setprefix"  -> Res([g EXCEPT !.h.pfx = o.t], "ok", "")
     [] o.op = "setsession" -> Res([g EXCEPT !.h.sid = o.s], "ok", "")
     [] o.op = "setlang"    -> Res([g EXCEPT !.h.lang = o.s], "ok", "")
+    [] o.op = "setctxlang" -> Res([g EXCEPT !.h.clang = o.s], "ok", "")
     [] o.op = "setlock"    -> IF h.seal THEN Res(g, "err", "")                       \* sealing cannot be undone
                               ELSE IF o.t = 0 THEN Res([g EXCEPT !.h.lock = @ \cup SafeLock, !.h.seal = TRUE], "ok", "")
                               ELSE Res([g EXCEPT !.h.lock = IF o.b THEN @ \cup {o.t} ELSE @ \ {o.t}], "ok", "")
     [] o.op = "put" -> IF h.pfx = 0 THEN Res(g, "err", "")
                        ELSE IF h.pfx \in h.lock THEN Res(g, "err", "")               \* refused while locked, nothing changes
-                       ELSE Res([g EXCEPT !.m = PutM(@, Cur(h, o.k, h.lang), o.v)], "ok", "")
+                       ELSE Res([g EXCEPT !.m = PutM(@, Cur(h, o.k, EffLang(h)), o.v)], "ok", "")
     [] o.op = "get" -> IF h.pfx = 0 THEN Res(g, "err", "")
-                       ELSE LET tr == Cur(h, o.k, h.lang)   df == Cur(h, o.k, "") IN
+                       ELSE LET tr == Cur(h, o.k, EffLang(h))   df == Cur(h, o.k, "") IN
                             IF tr \in DOMAIN g.m THEN Res(g, "ok", g.m[tr])          \* translation first
                             ELSE IF df \in DOMAIN g.m THEN Res(g, "ok", g.m[df])     \* then the default-language entry
                             ELSE Res(g, "notfound", "")
